@@ -94,6 +94,24 @@ def py_knth(t, f):
     return "nth" in pred_names(f) and t.is_open()
 
 
+def start_only_atom(ast):
+    """an SMT atom whose only variable is the constant: evaluate() decides it while instantiating and
+    the `&`/`|` smart constructors then simplify the formula (not modelled in Eval.v, see C03)"""
+    k = ast[0]
+    if k == "streq":
+        vs = [x[1][0] for x in (ast[2], ast[3]) if x[0] == "var"]
+        return all(v == "start" for v in vs)
+    if k == "len":
+        return ast[2][0] != "var" or ast[2][1][0] == "start"
+    if k == "not":
+        return start_only_atom(ast[1])
+    if k in ("and", "or"):
+        return any(start_only_atom(x) for x in ast[1])
+    if k in ("forall", "exists"):
+        return start_only_atom(ast[4])
+    return False
+
+
 def tree_arg_formulas(rng, g, tp):
     """formulas with instantiated tree arguments (subtrees of the closed tree t')"""
     nts = [k for k in g if k != "<start>"]
@@ -165,15 +183,15 @@ def replay_known(run):
 
 IMPORTS = "Eval3"
 CST_DEF = f"Definition CST := {g_var(START)}.\n"
-OK_DEF = ("fun c : formula atom * res TV * res TV * bool * bool => "
-          "let '(f, ev, ev', ks, kn) := c in "
+OK_DEF = ("fun c : nat * formula atom * res TV * res TV * bool * bool => "
+          "let '(k, f, ev, ev', ks, kn) := c in let '(G, T, T') := nth k ENV ([], DUMMY, DUMMY) in "
           "let skip := fun r : res TV => match r with Raise NotImpl => true | _ => false end in "
           "let m := m3_evaluate G T CST (lift3 f) in let m' := m3_evaluate G T' CST (lift3 f) in "
           "(skip m || res_eqb tv_eqb m ev) && (skip m' || res_eqb tv_eqb m' ev') "
           "&& Bool.eqb (m3_kselfrec G T (lift3 f)) ks && Bool.eqb (m3_knth T (lift3 f)) kn")
 # direct tie of quantified_formula_might_match
-OK_QMM = ("fun c : var * path * option mexpr * list N * path * bool => "
-          "let '(v, ip, m, am, leaf, r) := c in "
+OK_QMM = ("fun c : nat * var * path * option mexpr * list N * path * bool => "
+          "let '(k, v, ip, m, am, leaf, r) := c in let '(G, T, _) := nth k ENV ([], DUMMY, DUMMY) in "
           "Bool.eqb (qmm3 G T am v ip m leaf) r && "
           "negb (match m with Some me => ce_assert_fails T am me leaf | None => false end)")
 
@@ -200,8 +218,7 @@ def run(run):
 
     n_pairs = 40 if thorough else 8
     n_formulas = 60 if thorough else 16
-    shards, smeta = [], []
-    qshards, qmeta = [], []
+    envs, all_cs, all_ms, all_qcs, all_qms = [], [], [], [], []
     hist = {"open_TT": 0, "open_FF": 0, "open_UU": 0, "open_raise": 0, "closed_TT": 0, "closed_FF": 0,
             "closed_UU": 0, "closed_raise": 0, "definite_on_open": 0, "with_mexpr": 0, "tree_args": 0,
             "unencodable": 0, "flips": 0, "flips_known": 0, "qmm_calls": 0, "qmm_true": 0, "cuts": 0}
@@ -212,7 +229,6 @@ def run(run):
         cg = canonical(g)
         md = min_depths(cg)
         graph = gg.GrammarGraph.from_grammar(g)
-        gdef = f"Definition G : grammar := {g_grammar(cg)}.\n"
         # reachability tie, all pairs
         for a in g:
             for b in g:
@@ -223,6 +239,8 @@ def run(run):
         while len(formulas) < n_formulas:
             ast = gen_formula(rng, gname, g, [("start", "<start>")], rng.randint(1, 3), counter,
                               allow_mexpr=gname in HAS_MEXPRS)
+            if start_only_atom(ast):
+                continue
             formulas.append(ast)
         compiled = [(fi, ast, build(ast)) for fi, ast in enumerate(formulas)]
         for k in range(n_pairs):
@@ -237,7 +255,8 @@ def run(run):
             cuts = rand_cuts(rng, tp)
             t = prune(tp, cuts)
             hist["cuts"] += len(cuts)
-            defs = CST_DEF + gdef + f"Definition T := {g_tree(t)}.\nDefinition T' := {g_tree(tp)}.\n"
+            env_idx = "@K@"
+            envs.append(f"({g_grammar(cg)}, {g_tree(t)}, {g_tree(tp)})")
             cs, ms = [], []
             extra = [(1000 + i, ast, build3(ast)) for i, ast in enumerate(tree_arg_formulas(rng, g, tp))]
             for (fi, ast, fobj) in compiled + extra:
@@ -260,15 +279,15 @@ def run(run):
                     flips.append(meta)
                 try:
                     lit = g_formula(fobj, g)
-                    cs.append(f"({lit}, {g_out_tv(r)}, {g_out_tv(rp)}, {g_bool(ks)}, {g_bool(kn)})")
+                    cs.append(f"({env_idx}%nat, {lit}, {g_out_tv(r)}, {g_out_tv(rp)}, {g_bool(ks)}, {g_bool(kn)})")
                     ms.append(meta)
                 except Unencodable as e:
                     hist["unencodable"] += 1
                 if len(run.cov["samples"]) < 5 and definite and fi == k:
                     run.sample({x: meta[x] for x in ("grammar", "open", "closed", "formula", "verdict_open",
                                                       "verdict_closed")})
-            shards.append((defs, cs))
-            smeta.append(ms)
+            all_cs.append(cs)
+            all_ms.append(ms)
             # ---- direct tie of quantified_formula_might_match on this open tree ----
             qcs, qms = [], []
             leaves = [p for p, _ in t.open_leaves()]
@@ -292,26 +311,38 @@ def run(run):
                                            "obligation": "correspondence qmm3 <-> quantified_formula_might_match"},
                                           found_input=False)
                             continue
-                        m = "None" if qf.bind_expression is None else f"(Some {g_mexpr(qf, g)})"
-                        qcs.append(f"({g_var(qf.bound_variable)}, {g_path(ip)}, {m}, {g_list(am, g_N)}, "
+                        m = "(@None mexpr)" if qf.bind_expression is None else f"(Some {g_mexpr(qf, g)})"
+                        qcs.append(f"({env_idx}%nat, {g_var(qf.bound_variable)}, {g_path(ip)}, {m}, {g_list(am, g_N)}, "
                                    f"{g_path(leaf)}, {g_bool(res)})")
                         qms.append({"grammar": gname, "open": str(t), "tree_open": tree_json(t), "in_path": list(ip),
                                     "already_matched": am, "leaf": list(leaf), "formula": str(q2), "impl": res})
                         hist["qmm_calls"] += 1
                         hist["qmm_true"] += res
-            if qcs:
-                qshards.append((CST_DEF + gdef + f"Definition T := {g_tree(t)}.\n", qcs))
-                qmeta.append(qms)
+            all_qcs.append(qcs)
+            all_qms.append(qms)
 
     t_2 = time.time()
     nonconst = {k for k, vs in verdicts.items() if len({v for v in vs if v[0] == "ok"}) > 1}
-    for ms in smeta:
+    for ms in all_ms:
         for m in ms:
             run.count((m["key"], m["open"], m["closed"]), m["key"] in nonconst or m["definite"])
     run.cov["histogram"] = hist
-    run.cov["pairs"] = len(shards)
-    run.cov["formula_pairs"] = sum(len(ms) for ms in smeta)
-    print(f"[C06] pairs={len(shards)} cases={run.cov['formula_pairs']} hist={hist}", flush=True)
+    run.cov["pairs"] = len(envs)
+    run.cov["formula_pairs"] = sum(len(ms) for ms in all_ms)
+    # few coqc processes (start-up dominates): a shard holds several (grammar, t, t') triples in a
+    # list ENV, every case carries the index of its triple
+    group = 10 if thorough else 32
+    shards, smeta, qshards, qmeta = [], [], [], []
+    for lo in range(0, len(envs), group):
+        idx = range(lo, min(lo + group, len(envs)))
+        env_def = (CST_DEF + "Definition DUMMY := Node [] 0%N false [].\n"
+                   "Definition ENV : list (grammar * tree * tree) := [\n" +
+                   ";\n".join(envs[i] for i in idx) + "\n].\n")
+        shards.append((env_def, [c.replace("@K@", str(i - lo), 1) for i in idx for c in all_cs[i]]))
+        smeta.append([m for i in idx for m in all_ms[i]])
+        qshards.append((env_def, [c.replace("@K@", str(i - lo), 1) for i in idx for c in all_qcs[i]]))
+        qmeta.append([m for i in idx for m in all_qms[i]])
+    print(f"[C06] pairs={len(envs)} cases={run.cov['formula_pairs']} hist={hist}", flush=True)
 
     # ---- correspondence in Coq ----
     corr_bad = []
